@@ -24,6 +24,7 @@ type actorSnap struct {
 	redeleg  int
 	withdraw string
 	grants   map[string]string // "grantee|msgType" -> limit ("unlimited" or integer) for grants where this actor is the granter
+	allow    map[string]map[string]bool // same key -> validators the grant names (allow list), nil if it has none
 }
 
 type evmSnap struct {
@@ -61,7 +62,7 @@ func snapEVM(w *e.World) *evmSnap {
 	s := &evmSnap{supply: a.BankKeeper.GetSupply(ctx, e.Denom).Amount.BigInt(), byName: map[string]*actorSnap{}}
 	actors := evmActors(w)
 	for _, ac := range actors {
-		as := &actorSnap{name: ac.name, addr: ac.addr, deleg: map[int]*big.Int{}, shares: map[int]string{}, unbond: new(big.Int), grants: map[string]string{}}
+		as := &actorSnap{name: ac.name, addr: ac.addr, deleg: map[int]*big.Int{}, shares: map[int]string{}, unbond: new(big.Int), grants: map[string]string{}, allow: map[string]map[string]bool{}}
 		as.bal = a.BankKeeper.GetBalance(ctx, ac.addr, e.Denom).Amount.BigInt()
 		for vi, v := range w.Vals {
 			if d, ok := a.StakingKeeper.GetDelegation(ctx, ac.addr, v.ValAddr); ok {
@@ -86,6 +87,13 @@ func snapEVM(w *e.World) *evmSnap {
 					lim = "unlimited"
 					if sa.MaxTokens != nil {
 						lim = sa.MaxTokens.Amount.String()
+					}
+					if al := sa.GetAllowList(); al != nil {
+						set := map[string]bool{}
+						for _, v := range al.Address {
+							set[v] = true
+						}
+						as.allow[gr.name+"|"+url] = set
 					}
 				}
 				as.grants[gr.name+"|"+url] = lim
@@ -280,6 +288,22 @@ func c04Check(w *e.World, st *e.Step, pr *Prog, direct *PCall, pre, post *evmSna
 			}
 			return e.Violatef("precompile-authority", "spend-without-grant:"+c.pc.M, "%s called staking.%s for %s (signer %s) without a grant from the signer for %s", caller, c.pc.M, c.pc.Who, signer, url)
 		}
+		// the grant names the validators it covers: the validator the message is
+		// checked against (destination for a redelegation) must be one of them
+		if al := pre.byName[signer].allow[key]; al != nil {
+			vi := c.pc.Val
+			if c.pc.M == "redelegate" {
+				vi = abs(c.pc.Val2)
+			}
+			w.Stats.Probe("grant_validator_checked")
+			if !al[valString(w, vi)] {
+				if c05Suspect {
+					w.Stats.Probe("skipped_attributed_to_C05")
+					return nil
+				}
+				return e.Violatef("precompile-authority", "spend-for-validator-not-covered-by-grant:"+c.pc.M, "%s called staking.%s for signer %s on validator %d (%s), which the signer's %s grant (limit %s) does not name: %v", caller, c.pc.M, signer, vi, valString(w, vi), url, lim, keysOf(al))
+			}
+		}
 		if lim != "unlimited" && lim != "other" {
 			k := signer + "|" + key
 			if spent[k] == nil {
@@ -352,4 +376,13 @@ func c04Check(w *e.World, st *e.Step, pr *Prog, direct *PCall, pre, post *evmSna
 		}
 	}
 	return nil
+}
+
+func keysOf(m map[string]bool) []string {
+	var out []string
+	for k := range m {
+		out = append(out, k)
+	}
+	sort.Strings(out)
+	return out
 }
